@@ -974,6 +974,7 @@ class MementoFunctionHashRule(HashRule):
         )
         self.memento_fn = obj
         self.resolver = resolver
+        self._last_bound = MementoFunctionHashRule._bound_arguments(obj)
 
     def clone(self) -> "HashRule":
         return MementoFunctionHashRule(
@@ -1065,6 +1066,21 @@ class MementoFunctionHashRule(HashRule):
                 blacklist=blacklist,
             )
 
+    @staticmethod
+    def _bound_arguments(memento_fn: MementoFunctionType) -> Optional[str]:
+        """
+        Description of the arguments a modifier clone binds (`P = g.partial(3)`), or `None` if
+        it binds none.
+
+        """
+        partial_args = getattr(memento_fn, "partial_args", None)
+        partial_kwargs = getattr(memento_fn, "partial_kwargs", None)
+        if partial_args or partial_kwargs:
+            return _stable_repr(list(partial_args or ())) + _stable_repr(
+                dict(partial_kwargs or {})
+            )
+        return None
+
     def compute_hash(self) -> Optional[str]:
         def hash_of(memento_fn: MementoFunctionType) -> str:
             explicit_version = memento_fn.explicit_version
@@ -1076,14 +1092,10 @@ class MementoFunctionHashRule(HashRule):
                 result = hashlib.sha256(explicit_version.encode("utf-8")).hexdigest()[0:16]
             else:
                 result = memento_fn.code_hash
-            partial_args = getattr(memento_fn, "partial_args", None)
-            partial_kwargs = getattr(memento_fn, "partial_kwargs", None)
-            if partial_args or partial_kwargs:
-                # A modifier clone that binds arguments (P = g.partial(3)) is a value of the
-                # program like any variable: what it binds is part of what the code does
-                bound = _stable_repr(list(partial_args or ())) + _stable_repr(
-                    dict(partial_kwargs or {})
-                )
+            # A modifier clone that binds arguments (P = g.partial(3)) is a value of the
+            # program like any variable: what it binds is part of what the code does
+            bound = MementoFunctionHashRule._bound_arguments(memento_fn)
+            if bound is not None:
                 result = hashlib.sha256(
                     (str(result) + bound).encode("utf-8")
                 ).hexdigest()[0:16]
@@ -1108,7 +1120,10 @@ class MementoFunctionHashRule(HashRule):
             return True
         # The symbol may also have been re-bound to a different memento function (or to a
         # newer definition of the same one)
-        return new_fn is not self.memento_fn
+        if new_fn is not self.memento_fn:
+            return True
+        # A list or dictionary bound by a modifier clone may have been changed in place
+        return self._bound_arguments(new_fn) != self._last_bound
 
     def __repr__(self):
         return f"MementoFunctionHashRule(key={repr(self.key)})"
